@@ -168,11 +168,13 @@ class Recorder:
         n = len(pr)
         inm = np.asarray(inmask) if inmask is not None else np.ones(n, dtype=bool)
         out = np.asarray(ret[0])
-        if inm.shape != (n,) or out.shape != (n,) or any(r is None for r in pr):
+        if inm.shape != (n,) or out.shape != (n,):
             self.events.append({'a': 'reject', 'inm': [], 'out': [], 'qd': bool(ret[1]), 'z': [], 'shape': False})
             return
-        self.events.append({'a': 'reject', 'inm': sorted(r for r, v in zip(pr, inm.tolist()) if v),
-                            'out': sorted(r for r, v in zip(pr, out.tolist()) if v), 'qd': bool(ret[1]), 'z': []})
+        # positions whose (x, y) pair was no data point (the fit event already says args = False) are left out
+        self.events.append({'a': 'reject', 'inm': sorted(r for r, v in zip(pr, inm.tolist()) if v and r is not None),
+                            'out': sorted(r for r, v in zip(pr, out.tolist()) if v and r is not None),
+                            'qd': bool(ret[1]), 'z': []})
 
 
 # ---------------------------------------------------------------------------------------------
@@ -181,7 +183,7 @@ _POS = re.compile(r'<<"C10POS", (\d+), (\d+), "(\w+)">>')
 _INIT = re.compile(r'Finished computing initial states: (\d+) distinct state')
 
 
-def validate_traces(ctx, traces, label, dev=None):
+def validate_traces(ctx, traces, label, dev=None, unspec=None):
     """Returns {trace index (0-based): number of events the machine explained} for the traces NOT accepted."""
     path = os.path.join(ctx.scratch, 'c10_traces.json')
     core.write_json(path, traces)
@@ -198,8 +200,10 @@ def validate_traces(ctx, traces, label, dev=None):
     for m in _POS.finditer(r['stdout']):
         t, p, pc = int(m.group(1)), int(m.group(2)), m.group(3)
         far[t] = max(far.get(t, 1), p)
-        if pc == 'done' and p == len(traces[t - 1]['events']) + 1:
-            done.add(t)
+        if pc == 'unspec' or (pc == 'done' and p == len(traces[t - 1]['events']) + 1):
+            done.add(t)                  # explained to the end, or left the domain of the statement
+        if pc == 'unspec' and unspec is not None:
+            unspec.add(t - 1)
     return {t - 1: far.get(t, 1) - 1 for t in range(1, len(traces) + 1) if t not in done}
 
 
@@ -366,11 +370,15 @@ def build_trace(P, perm, res, ref):
         return None, None, {'exception': 'outmask has shape %r dtype %s' % (outmask.shape, outmask.dtype)}
     xe = eval_points(P)
     xe = xe[(xe >= S.lo) & (xe <= S.hi)]
-    got = np.asarray(sset.value(xe)[0], dtype=float)
     want = S.curve(last, xe) if last is not None else None
     if want is None:
         return None, 'independent solver: rank-deficient system for the last set fitted', None
-    cdiff = scaled(got - want, P)
+    try:
+        got = np.asarray(sset.value(xe)[0], dtype=float)
+        cdiff = scaled(got - want, P)
+    except Exception:                                      # the returned object cannot be evaluated: no curve at all
+        got = np.full(xe.shape, np.nan)
+        cdiff = CLAMP
     pts = sorted(perm[c] for c in range(n) if outmask[c])
     rete = {'a': 'return', 'outmask': [c + 1 for c in range(n) if outmask[c]], 'cdiff': cdiff,
             'hasref': ref is not None, 'refpts': ref['pts'] if ref else [], 'refcurve': ref['curve'] if ref else [],
@@ -413,7 +421,11 @@ def case_of(P, perm, k=None, ref_perm=None):
 def judge_batch(ctx, bsp, batch, label, stats):
     """batch: list of (P, perm, res, trace, info, caller order of the reference run).  Validates, classifies, reports."""
     traces = [b[3] for b in batch]
-    bad = validate_traces(ctx, traces, label)
+    unspec = set()
+    bad = validate_traces(ctx, traces, label, unspec=unspec)
+    if unspec:
+        stats['skipped']['fewer good points left than the spline order'] = \
+            stats['skipped'].get('fewer good points left than the spline order', 0) + len(unspec)
     explained = {}
     if bad:
         sub = sorted(bad)
@@ -450,7 +462,7 @@ def judge_batch(ctx, bsp, batch, label, stats):
 
 def run_traces(ctx, bsp):
     rng = random.Random(ctx.seed)
-    nprob = 45 if ctx.quick else 900
+    nprob = 60 if ctx.quick else 900
     per_batch = 30 if ctx.quick else 60
     stats = {'maxcdiff': 0, 'skipped': {}, 'runs': 0, 'refused': 0}
     batch = []
@@ -482,13 +494,16 @@ def run_traces(ctx, bsp):
                 done += len(batch)
             batch = []
     nskip = sum(stats['skipped'].values())
-    if nskip * 5 > stats['runs']:
+    if nskip * 5 > stats['runs'] and (ctx.violations or ctx.known_hits):
+        print('  (%d of %d recorded runs fell outside the domain of C10 and were not judged: %r)' % (nskip, stats['runs'], stats['skipped']),
+              flush=True)
+    elif nskip * 5 > stats['runs']:
         raise core.MachineryError('%d of %d recorded runs fell outside the domain of C10: %r' % (nskip, stats['runs'], stats['skipped']))
     if stats['refused'] > MAXREPORT:
         print('  (%d recorded runs refused in all, %d of them not explained by deviation D-C10-1; the first %d of either '
               'kind are reported)' % (stats['refused'], stats.get('refused_None', 0), MAXREPORT), flush=True)
     ctx.sample({'recorded_runs': stats['runs'], 'validated': done, 'refused': stats['refused'], 'out_of_domain_skipped': stats['skipped'],
-                'max_curve_discrepancy_microsigma': stats['maxcdiff']})
+                'max_curve_discrepancy_microsigma': stats['maxcdiff']}, limit=12)
     return stats
 
 
@@ -496,6 +511,7 @@ def run_traces(ctx, bsp):
 # spec -> code: TLC behaviours replayed on the real iterfit (oracle in place of bspline.fit)
 WPOS = [1.0, 4.0, 0.25, 1.0, 4.0]
 WNEG = [0.0, -1.0, 0.0, -4.0, 0.0]
+YOF = [30.0, 60.0, 20.0, 50.0, 10.0]      # y of rank 1..5: distinct and not monotone in x
 
 
 def concretise(st):
@@ -505,7 +521,7 @@ def concretise(st):
     perm = list(p['perm'])
     cpos = set(p['cpos'])
     x = np.array([float(perm[c]) for c in range(n)])
-    y = np.array([10.0 * perm[c] for c in range(n)])
+    y = np.array([YOF[perm[c] - 1] for c in range(n)])
     w = np.array([WPOS[perm[c] - 1] if (c + 1) in cpos else WNEG[perm[c] - 1] for c in range(n)])
     script = []
     hist = list(st['hist'])
@@ -541,7 +557,7 @@ def run_scripted(bsp, c):
         return (ent['st'], yfit)
 
     rec = Recorder(bsp, fit_impl=oracle_fit)
-    rec.rankof = {(float(r), 10.0 * r): r for r in range(1, n + 1)}
+    rec.rankof = {(float(r), YOF[r - 1]): r for r in range(1, n + 1)}
     rec.wof = {r: WPOS[r - 1] for r in range(1, n + 1)}
     obs = {'exc': None}
     with rec:
@@ -634,6 +650,7 @@ def run_mc(ctx, bsp, cfg, need=(), sample_every=1):
     n = nd = 0
     kinds = {}
     nviol = 0
+    nsamp = 0
     nclass = {}
     for st in core.iter_states(r):
         n += 1
@@ -652,7 +669,8 @@ def run_mc(ctx, bsp, cfg, need=(), sample_every=1):
             ctx.nontriv((tuple(c['perm']), tuple(sorted(st['prob']['cpos'])), c['lower'], c['maxiter'],
                          tuple((tuple(e['mask']), e['st'], tuple(e['z'] or ())) for e in c['script'])))
         bad = compare(st, c, obs)
-        if nd % 3001 == 1:
+        if nd % 3001 == 1 and nsamp < 2:
+            nsamp += 1
             ctx.sample({'behaviour': describe_state(plain_state(st)), 'observed_fits': [m for m, _, _ in obs['fits']],
                         'observed_mask': obs.get('outmask')})
         if bad:
@@ -697,9 +715,12 @@ def self_test(ctx):
     back = tr([fit([1, 2, 3]), rej([1, 2, 3], [1, 3], big), fit([1, 3]), rej([1, 3], [1, 2, 3], [0, 0, 0]), ret([1, 2, 3])])
     curve = tr([fit([1, 2, 3]), rej([1, 2, 3], [1, 3], big), fit([1, 3]), rej([1, 3], [1, 3], [0, 0, 0]), ret([2, 3], TOL + 1)])
     kept = tr([fit([1, 2, 3]), rej([1, 2, 3], [1, 2, 3], big), ret([1, 2, 3])])
-    bad = validate_traces(ctx, [good, early, unsorted, back, curve, kept], 'Trace_IterFit[self-test]')
-    if bad != {1: 2, 2: 4, 3: 3, 4: 4, 5: 1}:
-        raise core.MachineryError('Trace_IterFit self-test: expected traces 1..5 refused at events 2,4,3,4,1, got %r' % bad)
+    few = dict(tr([fit([1, 2]), ret([1, 3])]), cpos=[1, 3], mingood=3)       # 2 good points, order 3: not judged
+    unspec = set()
+    bad = validate_traces(ctx, [good, early, unsorted, back, curve, kept, few], 'Trace_IterFit[self-test]', unspec=unspec)
+    if bad != {1: 2, 2: 4, 3: 3, 4: 4, 5: 1} or unspec != {6}:
+        raise core.MachineryError('Trace_IterFit self-test: expected traces 1..5 refused at events 2,4,3,4,1 and trace 6 '
+                                  'outside the statement, got %r %r' % (bad, unspec))
     bad = validate_traces(ctx, [good, early], 'Trace_IterFit[self-test Dev]', dev='D-C10-1')
     if bad != {0: 2}:
         raise core.MachineryError('Trace_IterFit self-test (deviation D-C10-1): expected only the conforming run refused, got %r' % bad)
